@@ -102,17 +102,23 @@ def main():
                 fr = np.array([(fv3[idx == p, 1:] * er[idx == p]).sum() for p in range(npp)])
                 rings.append(q(np.stack([fz, fr], 1), S))
             out.write({"id": rid, "kind": "axirevolved", "nt": True, "f2": q(f2d, S), "rings": rings, "bound": 64})
-        rid = "condensed-%d" % rep
-        if out.want(rid):
+        for fam, mkreg in (("hex", lambda: fem.RegionHexahedron(perturb(fem.Cube(n=3), rng))),
+                           ("hex20", lambda: fem.RegionQuadraticHexahedron(perturb(fem.Cube(n=2), rng).add_midpoints_edges())),
+                           # (families whose dual region is cell-wise constant; the tri-quadratic hexahedron has a linear dual)
+                           ("quad", lambda: fem.RegionQuad(perturb(fem.Rectangle(n=4), rng))),
+                           ("quad8", lambda: fem.RegionQuadraticQuad(fem.Rectangle(n=3).add_midpoints_edges()))):
+          rid = "condensed-%s-%d" % (fam, rep)
+          if out.want(rid) and (fam == "hex" or rep == 0):
             bulk = float([8.0, 20.0, 64.0, 200.0][rep % 4])
             move = [0.2, 0.3, -0.15, 0.1][rep % 4]
-            mesh = perturb(fem.Cube(n=3), rng)
-            region = fem.RegionHexahedron(mesh)
-            f = fem.FieldContainer([fem.Field(region, dim=3)])
+            region = mkreg()
+            dim = region.mesh.dim
+            mkf = (lambda r: fem.Field(r, dim=3)) if dim == 3 else (lambda r: fem.FieldPlaneStrain(r, dim=2))
+            f = fem.FieldContainer([mkf(region)])
             b, lc = fem.dof.uniaxial(f, clamped=True, move=move)
             sb = fem.SolidBodyNearlyIncompressible(fem.NeoHooke(mu=1.0), f, bulk=bulk)
             res = fem.newtonrhapson(items=[sb], verbose=0, tol=1e-10, **lc)
-            fm = fem.FieldsMixed(region, n=3)
+            fm = fem.FieldsMixed(region, n=3, planestrain=(dim == 2)) if dim == 2 else fem.FieldsMixed(region, n=3)
             b2, lc2 = fem.dof.uniaxial(fm, clamped=True, move=move)
             sm = fem.SolidBody(fem.ThreeFieldVariation(fem.NeoHooke(mu=1.0, bulk=bulk)), fm)
             res2 = fem.newtonrhapson(items=[sm], verbose=0, tol=1e-10, **lc2)
@@ -124,6 +130,12 @@ def main():
             if not out.want(rid):
                 continue
             mesh = mk(n=n)
+            if rep % 2 == 1:
+                # congruent parallelepiped cells: the grid rotated by a rational rotation and sheared (still a uniform grid)
+                Q = np.array([[3, -4], [4, 3]]) / 5.0 if dim == 2 else np.array([[2, -1, 2], [2, 2, -1], [-1, 2, 2]]) / 3.0
+                Sh = np.eye(dim)
+                Sh[0, 1] = 0.25
+                mesh = fem.Mesh(mesh.points @ (Q @ Sh).T, mesh.cells, mesh.cell_type)
             vals = rng.randint(-1, 2, size=(mesh.npoints, dim)) / 32.0
             res = []
             for uni in (False, True):
